@@ -274,6 +274,44 @@ func runC03(c *Ctx) {
 
 	// ---------- O-4 load order ----------
 	c.checkHeapShape()
+
+	// ---------- O-5 the client reports the NAT type its probe found ----------
+	rule5 := "O-5 client NAT probe mapping"
+	if un := p.Fn("client/lib", "updateNATType"); un != nil {
+		c.analysedFn(p.FnName(un))
+		var probe *ssa.Call
+		for _, ci := range callsTo(un, "common/nat.CheckIfRestrictedNAT") {
+			probe, _ = ci.(*ssa.Call)
+		}
+		if probe == nil {
+			c.undecided(rule5, "updateNATType probes with CheckIfRestrictedNAT", p.Pos(un.Pos()), "call not found")
+		} else {
+			isRes := func(v ssa.Value) bool {
+				return sameValue(v, func(w ssa.Value) bool { return isResultOfCall(w, probe, 0) }) || flows(v, func(w ssa.Value) bool { return isResultOfCall(w, probe, 0) })
+			}
+			restricted := boolEdges(un, true, isRes)
+			unrestricted := boolEdges(un, false, isRes)
+			n := 0
+			for _, ci := range callsTo(un, "(*client/lib.BrokerChannel).SetNATType") {
+				s, _ := constString(ci.Common().Args[1])
+				switch s {
+				case "restricted":
+					n++
+					c.check(len(restricted) > 0 && reachableWithout(un, ci, restricted) == nil && reachableWithout(un, ci, errNilEdges(un, probe, 1)) == nil, rule5, "updateNATType reports restricted only when the probe said restricted", p.instrPos(ci), "", "the client can report 'restricted' without a successful probe that found a restricted NAT")
+				case "unrestricted":
+					n++
+					c.check(len(unrestricted) > 0 && reachableWithout(un, ci, unrestricted) == nil && reachableWithout(un, ci, errNilEdges(un, probe, 1)) == nil, rule5, "updateNATType reports unrestricted only when the probe said so", p.instrPos(ci), "", "the client can report 'unrestricted' although the probe failed or found a restricted NAT: a restricted client is then served from the restricted-proxy pool")
+				case "unknown":
+					n++
+				}
+			}
+			if n < 3 {
+				c.undecided(rule5, "SetNATType calls", p.Pos(un.Pos()), fmt.Sprintf("%d constant NAT types reported, expected restricted, unrestricted and unknown", n))
+			}
+		}
+	} else {
+		c.undecided(rule5, "client/lib.updateNATType", "-", "anchor does not resolve")
+	}
 }
 
 // checkNATSwitch: the decoder accepts exactly {"", unknown, restricted,
